@@ -13,6 +13,8 @@ extern InterpreterEnv* env;
 extern Instance instance;
 extern int count;
 extern char** script_lines;
+extern int p2sh_lines_start; ///< index of the first line of the P2SH section of script_lines (after its header), -1 if there is none
+void relist_p2sh();          ///< brings the P2SH section up to date with the redeem script that is going to be run
 
 int fn_step(const char*);
 int fn_rewind(const char*);
